@@ -3,14 +3,15 @@ from .common import *
 
 U_BIN = ["overflowing_add", "overflowing_sub", "checked_add", "checked_sub", "wrapping_add", "wrapping_sub",
          "saturating_add", "saturating_sub", "overflowing_add_signed", "checked_add_signed",
-         "wrapping_add_signed", "saturating_add_signed"]
-U_UN = ["overflowing_neg", "checked_neg", "wrapping_neg"]
+         "wrapping_add_signed", "saturating_add_signed", "strict_add", "strict_sub", "strict_add_signed", "abs_diff"]
+U_UN = ["overflowing_neg", "checked_neg", "wrapping_neg", "strict_neg"]
 I_BIN = ["overflowing_add", "overflowing_sub", "checked_add", "checked_sub", "wrapping_add", "wrapping_sub",
          "saturating_add", "saturating_sub", "overflowing_add_unsigned", "overflowing_sub_unsigned",
          "checked_add_unsigned", "checked_sub_unsigned", "wrapping_add_unsigned", "wrapping_sub_unsigned",
-         "saturating_add_unsigned", "saturating_sub_unsigned"]
+         "saturating_add_unsigned", "saturating_sub_unsigned", "strict_add", "strict_sub", "strict_add_unsigned",
+         "strict_sub_unsigned", "abs_diff"]
 I_UN = ["overflowing_neg", "overflowing_abs", "checked_neg", "checked_abs", "wrapping_neg", "wrapping_abs",
-        "saturating_neg", "saturating_abs", "unsigned_abs"]
+        "saturating_neg", "saturating_abs", "unsigned_abs", "strict_neg", "strict_abs"]
 CARRY = ["carrying_add", "borrowing_sub"]
 
 
@@ -26,16 +27,22 @@ def gen(rng, tier):
                 for op in uns:
                     t, a = value(rng, w, n)
                     yield f"{op} {s}{cfg} {hx(a)}", t
+                t, a, b = pair(rng, w, n)
+                for mode in ("dbg", "rel"):
+                    yield f"midpoint {s}{cfg} {mode} {hx(a)} {hx(b)}", t
                 for op in CARRY:
                     t, a, b = pair(rng, w, n)
                     for c in (0, 1):
                         yield f"{op} {s}{cfg} {hx(a)} {hx(b)} {c}", t + "/c%d" % c
     if tier == "thorough":
         # complete enumeration at 8 bits for a representative subset
-        for s, ops in (("u", ["overflowing_add", "overflowing_sub", "overflowing_add_signed", "saturating_add_signed"]),
+        for s, ops in (("u", ["overflowing_add", "overflowing_sub", "overflowing_add_signed", "saturating_add_signed", "abs_diff", "midpoint"]),
                        ("i", ["overflowing_add", "overflowing_sub", "overflowing_add_unsigned",
-                              "overflowing_sub_unsigned", "saturating_add", "saturating_sub"])):
+                              "overflowing_sub_unsigned", "saturating_add", "saturating_sub", "abs_diff", "midpoint"])):
             for op in ops:
                 for a in range(256):
                     for b in range(256):
-                        yield f"{op} {s}8x1 {hx(a)} {hx(b)}", "exhaustive8"
+                        if op == "midpoint":
+                            yield f"{op} {s}8x1 dbg {hx(a)} {hx(b)}", "exhaustive8"
+                        else:
+                            yield f"{op} {s}8x1 {hx(a)} {hx(b)}", "exhaustive8"
